@@ -757,3 +757,42 @@ pub fn replay_trapmode(a: &Args, out: &mut Out) {
     }
     set_pair_tag("none");
 }
+
+/// `lc3v replay ostraps hist=<file>`: each history is a start state of MC_OsTraps: vector, real traps (0/1), R0,
+/// number of keyboard bytes, the keyboard bytes, the words at x4000.  The TRAP at x3000 is executed step by step
+/// through the real OS until control is back in user code, then the contract is evaluated (`trapdone`).
+pub fn replay_ostraps(a: &Args, out: &mut Out) {
+    let hist = std::fs::read_to_string(a.get_str("hist", "")).expect("hist file");
+    let os = lc3_ensemble::sim::_os_obj_file();
+    let prompt = os.symbol_table().and_then(|s| s.lookup_label("S_IN_PROMPT")).unwrap_or(0);
+    set_pair_tag("none");
+    crate::machine::LIGHT_HEADERS.with(|l| l.set(true));
+    let mut run = 0u64;
+    for line in hist.lines() {
+        if line.trim().is_empty() { continue; }
+        let h: Vec<u16> = serde_json::from_str::<Vec<u64>>(line).expect("history").iter().map(|&x| x as u16).collect();
+        let (vect, real, r0, nk) = (h[0], h[1] == 1, h[2], h[3] as usize);
+        let kbd: Vec<u8> = h[4..4 + nk].iter().map(|&x| x as u8).collect();
+        let words = &h[4 + nk..];
+        run += 1;
+        let mut m = M::new(run, known(0, real, false), out);
+        let mut pokes: Vec<(u16, Word)> = vec![(0x3000, word(0xF000 | vect, 0xFFFF)), (0x3001, word(0xF025, 0xFFFF))];
+        pokes.extend(words.iter().enumerate().map(|(i, &w)| (0x4000 + i as u16, word(w, 0xFFFF))));
+        m.set_mems(out, &pokes);
+        for r in 0..8u16 { let v = match r { 0 => r0, 6 => 0xF000, _ => r + 1 }; m.set_reg(out, r as u8, word(v, 0xFFFF)); }
+        m.set_psr(out, 0x8002);
+        m.keys(out, &kbd);
+        m.add_intfn(out);
+        m.set_pc(out, 0x3000);
+        m.mark(out);
+        let mut steps = 0;
+        loop {
+            steps += 1;
+            let r = m.step(out, false, false);
+            if r != "ok" || steps > 3000 { break; }
+            if m.sim.pc == 0x3001 && !m.sim.psr().privileged() { break; }
+        }
+        m.trapdone(out, vect, prompt, -1);
+        m.end(out);
+    }
+}
